@@ -146,8 +146,9 @@ def SpecCore (b : Backend) (f : Flags) (tokVal : Nat → Val) (invId : Nat) (liv
 
 def SpecOK (ob : Obs) : Bool :=
   let f := flagsOf ob.evs {}
-  if f.bad then ob.code = 10 && ob.view.isEmpty           -- unknown flag / missing argument: exit 10 before any step
-  else if ob.nrest ≠ 0 then ob.code = 1 && ob.view.isEmpty  -- stray operands: exit 1 before any step
+  let unchanged := decide (ob.outAfter = ob.outBefore) && decide (ob.fileAfter = ob.fileBefore)
+  if f.bad then ob.code = 10 && ob.view.isEmpty && unchanged           -- unknown flag / missing argument: exit 10 before any step
+  else if ob.nrest ≠ 0 then ob.code = 1 && ob.view.isEmpty && unchanged  -- stray operands: exit 1 before any step
   else SpecCore ob.backend f ob.tokVal ob.invId ob.live (ob.code == 0) ob.view
         ob.outBefore ob.outAfter ob.fileBefore ob.fileAfter ob.listInput
 
@@ -156,8 +157,9 @@ def specWhy (ob : Obs) : String :=
   let f := flagsOf ob.evs {}
   let ok := ob.code == 0
   let v := ob.view
-  if f.bad then (if ob.code = 10 && v.isEmpty then "" else "unknown flag or missing option argument: expected exit 10 before any step")
-  else if ob.nrest ≠ 0 then (if ob.code = 1 && v.isEmpty then "" else "stray arguments: expected exit 1 before any step")
+  let unchanged := decide (ob.outAfter = ob.outBefore) && decide (ob.fileAfter = ob.fileBefore)
+  if f.bad then (if ob.code = 10 && v.isEmpty && unchanged then "" else "unknown flag or missing option argument: expected exit 10 before any step")
+  else if ob.nrest ≠ 0 then (if ob.code = 1 && v.isEmpty && unchanged then "" else "stray arguments: expected exit 1 before any step")
   else if !specFailstopV ok v then "exit 0 although a logged step failed"
   else if !specPhasesV ob.backend f v then "-c ran a job/delivery step or -r ran a build step"
   else if !specBuildThenRunV ob.backend f ok v then "successful full run without the build steps before the job"
